@@ -187,7 +187,10 @@ class Index:
         if mangled:
             c = [f for f in c if f['mangled'] == mangled]
         if sig:
-            c = [f for f in c if sig.replace('bpp::', '') in f['type'].replace('bpp::', '')]
+            if sig.startswith('='):
+                c = [f for f in c if sig[1:].replace('bpp::', '').replace(' ', '') == f['type'].replace('bpp::', '').replace(' ', '')]
+            else:
+                c = [f for f in c if sig.replace('bpp::', '') in f['type'].replace('bpp::', '')]
         if targs is not None:
             c = [f for f in c if f['targs'] == targs]
         # identical redeclarations dumped twice (filter matches both record and out-of-line def): dedupe by mangled
@@ -244,6 +247,7 @@ def norm_class(t):
     t = re.sub(r'\s+>', '>', t)
     if t in ('basic_string<char>', 'std::string', 'string'):
         t = 'std::basic_string<char>'
+    t = re.sub(r'(?<![A-Za-z0-9_])std::string(?![A-Za-z0-9_])', 'std::basic_string<char>', t)
     t = re.sub(r'(?<![A-Za-z0-9_:])(vector|shared_ptr|unique_ptr|deque|map|set|pair)<', r'std::\1<', t)
     t = t.replace('bpp::', '')
     t = re.sub(r'(?<![A-Za-z0-9_])(?:std::)?size_t(?![A-Za-z0-9_])', 'unsigned long', t)
@@ -304,6 +308,17 @@ def ptrlike(t):
     return t[i:j].strip()
 
 ITER_RE = re.compile(r'^(?:__gnu_cxx::)?__normal_iterator<')
+RITER_RE = re.compile(r'^std::reverse_iterator<(.*)>$')
+
+def riterlike(t):
+    """pointer type when t is std::reverse_iterator over a vector/string iterator: modelled as a raw pointer one past the
+    element it designates (as in the standard: *r == *(r.base() - 1)), moving in the opposite direction"""
+    t = norm_class(t)
+    m = RITER_RE.match(t)
+    if not m:
+        return None
+    return iterlike(m.group(1))
+
 
 def iterlike(t):
     """pointer type string P when t is __gnu_cxx::__normal_iterator<P, C> (vector / string iterators = raw pointers)"""
@@ -406,6 +421,9 @@ class Types:
         il = iterlike(t2)
         if il is not None:
             return self._c(il)
+        ril = riterlike(t2)
+        if ril is not None:
+            return self._c(ril)
         m = re.match(r'^(.*)\[(\d+)\]$', t2)
         if m:
             return self._c(m.group(1)) + '*'
@@ -423,7 +441,7 @@ class Types:
 
     def is_scalar(self, tobj):
         t = strip_cv(self.qt(tobj))
-        if t.endswith('*') or ptrlike(t) is not None or iterlike(t) is not None or t in ('std::nullptr_t', 'nullptr_t'):
+        if t.endswith('*') or ptrlike(t) is not None or iterlike(t) is not None or riterlike(t) is not None or t in ('std::nullptr_t', 'nullptr_t'):
             return True
         return t in BUILTIN or t.startswith('enum ')
 
@@ -759,7 +777,7 @@ class FnLower:
     def construct_into(self, target, u, decl=None):
         """statements constructing an object of class type in place: target is an lvalue text"""
         cls = self.T.cls(u['type'])
-        if ptrlike(cls) is not None or iterlike(cls) is not None:
+        if ptrlike(cls) is not None or iterlike(cls) is not None or riterlike(cls) is not None:
             return [('%s %s = %s;' % (decl, target, self.expr(u))) if decl else '%s = %s;' % (target, self.expr(u))]
         cty = self.T.base(cls)
         args = ctor_args(u)
@@ -776,7 +794,14 @@ class FnLower:
                 r.append('%s = %s;' % (target, src))
             else:
                 fn = self.resolve_ctor(cls, 'copy', u)
-                r.append('%s(%s, %s);' % (fn, self.addr(target), self.addr(src)))
+                sp = self.addr(src)
+                if self.has_throwing_call(a):
+                    # the source comes from a may-throw call: leave before copying from the result of a raising callee
+                    tn = self.tmp('verif_h')
+                    r.append('%s* %s = %s;' % (cty, tn, sp))
+                    r.append(self.chk())
+                    sp = tn
+                r.append('%s(%s, %s);' % (fn, self.addr(target), sp))
             return r
         if not args and cls in self.cfg.plain and ('ctor', cls, 0) not in self.cfg.rename:
             return r      # implicit default constructor of a plain class: no effect
@@ -1078,7 +1103,9 @@ class FnLower:
             if ptrlike(cls) is not None or iterlike(cls) is not None:
                 return None
             nargs = len(n['inner']) - 1
-            return self.resolve_member(cls, me['name'], nargs, n, argsig=self.argsig(n['inner'][1:]))
+            oq = strip_cv(self.T.qt(obj['type'])) if False else self.T.qt(obj['type']).strip()
+            this_const = oq.startswith('const ') or ' const' in oq.replace('* const', '*')
+            return self.resolve_member(cls, me['name'], nargs, n, argsig=self.argsig(n['inner'][1:]), this_const=this_const)
         if k == 'CXXOperatorCallExpr':
             cal = unwrap_casts(n['inner'][0])
             rd = cal.get('referencedDecl', {})
@@ -1086,7 +1113,7 @@ class FnLower:
             args = n['inner'][1:]
             if args and any(ptrlike(self.T.cls(a['type'])) is not None for a in args[:2]) and name in ('operator->', 'operator*', 'operator=', 'operator==', 'operator!=', 'operator bool'):
                 return None
-            if args and iterlike(self.T.cls(args[0]['type'])) is not None:
+            if args and (iterlike(self.T.cls(args[0]['type'])) is not None or riterlike(self.T.cls(args[0]['type'])) is not None):
                 return None
             if rd.get('kind') == 'CXXMethodDecl':
                 cls = self.T.cls(args[0]['type'])
@@ -1103,7 +1130,7 @@ class FnLower:
             self.brk(n, 'indirect call')
         if k in ('CXXConstructExpr', 'CXXTemporaryObjectExpr'):
             cls = self.T.cls(n['type'])
-            if ptrlike(cls) is not None or iterlike(cls) is not None:
+            if ptrlike(cls) is not None or iterlike(cls) is not None or riterlike(cls) is not None:
                 return None
             if self.is_copy_ctor(n) and len(n.get('inner', [])) == 1:
                 a = n['inner'][0]
@@ -1134,8 +1161,9 @@ class FnLower:
             out.append(t)
         return ','.join(out)
 
-    def resolve_member(self, cls, name, nargs, n, sig=None, argsig=None):
+    def resolve_member(self, cls, name, nargs, n, sig=None, argsig=None, this_const=None):
         keys = []
+        if this_const is not None: keys.append((cls, name, nargs, 'this:const' if this_const else 'this:mut'))
         if argsig is not None: keys.append((cls, name, nargs, 'args:' + argsig))
         if sig: keys.append((cls, name, nargs, sig))
         keys += [(cls, name, nargs), (cls, name)]
@@ -1219,10 +1247,30 @@ class FnLower:
         u = a
         while u.get('kind') in TRANSPARENT:
             u = u['inner'][0]
+        thr = self.has_throwing_call(u)
         if u.get('kind') == 'MaterializeTemporaryExpr' or u.get('valueCategory') in ('lvalue', 'xvalue'):
             # string literals decay to pointers: they are prvalues after the decay cast, handled below
-            return self.ref_bind(u)
-        return self.expr(u)
+            e = self.ref_bind(u)
+            ctype = None
+            try:
+                ctype = self.T.c(u['type']) + '*'
+            except ExtractionBreak:
+                pass
+        else:
+            e = self.expr(u)
+            ctype = None
+            try:
+                ctype = self.T.c(u['type'])
+            except ExtractionBreak:
+                pass
+        if thr and ctype is not None and not e.startswith('&verif_t'):
+            # a may-throw call inside an argument: evaluate it first and leave if it raised, so that the outer call is not
+            # executed on the garbage result of a raising callee
+            tn = self.tmp('verif_h')
+            self.pre.append('%s %s = %s;' % (ctype, tn, e))
+            self.pre.append(self.chk())
+            return tn
+        return e
 
     def call(self, fn, argtexts, n):
         if fn in self.cfg.drop:
@@ -1485,6 +1533,20 @@ class FnLower:
         cal = unwrap_casts(n['inner'][0])
         rd = cal.get('referencedDecl', {})
         args = n['inner'][1:]
+        if args and riterlike(self.T.cls(args[0]['type'])) is not None:
+            nm = rd.get('name')
+            op = nm[len('operator'):]
+            a0 = self.expr(args[0])
+            if op == '*' and len(args) == 1:
+                return '(*(%s - 1))' % a0
+            if op == '->':
+                return '(%s - 1)' % a0
+            if op in ('++', '--'):
+                rop = '--' if op == '++' else '++'
+                return '(%s%s)' % (a0, rop) if len(args) == 2 else '(%s%s)' % (rop, a0)
+            if op in ('==', '!=', '=') and len(args) == 2:
+                return '(%s %s %s)' % (a0, op, self.expr(args[1]))
+            self.brk(n, 'reverse iterator operator %s' % nm)
         if args and iterlike(self.T.cls(args[0]['type'])) is not None:
             nm = rd.get('name')
             op = nm[len('operator'):]
@@ -1539,7 +1601,7 @@ class FnLower:
     def e_CXXConstructExpr(self, n):
         cls = self.T.cls(n['type'])
         args = ctor_args(n)
-        if iterlike(cls) is not None:
+        if iterlike(cls) is not None or riterlike(cls) is not None:
             if len(args) == 1:
                 return '((%s)%s)' % (self.T.c(n['type']), self.expr(args[0]))
             if not args:
